@@ -110,7 +110,9 @@ EXPORT errno_t _memcpy32_s_chk(uint32_t *dest, rsize_t dmax,
     if (srcbos == BOS_UNKNOWN) {
         BND_CHK_PTR_BOUNDS(src, smax);
     } else if (unlikely(smax > srcbos)) {
-        invoke_safe_mem_constraint_handler("memcmp32_s: slen exceeds src",
+        mem_prim_set(dest, dmax, 0);
+        MEMORY_BARRIER;
+        invoke_safe_mem_constraint_handler("memcpy32_s: slen exceeds src",
                                            (void *)src, ESLEMAX);
         return (RCNEGATE(ESLEMAX));
     }
